@@ -269,7 +269,8 @@ def parse_log(text):
             if m2:
                 res["vars"] = max(res["vars"], int(m2.group(1)))
                 res["clauses"] = max(res["clauses"], int(m2.group(2)))
-        elif "out of memory" in s.lower():
+        elif "out of memory" in s.lower() or (s.startswith("memory allocation of") and s.endswith("failed")):
+            # CBMC's own message, or kani-driver failing to allocate under the address-space cap
             res["oom"] = True
         elif s.startswith("- Stub:"):
             res["stubs"].append(s[len("- Stub:"):].strip())
